@@ -44,15 +44,15 @@ def encTfhd (x : Tfhd) : Bytes :=
     (encOpt (hasBit x.flags 4) encU32 x.default_sample_size ++
      encOpt (hasBit x.flags 5) encU32 x.default_sample_flags))))))
 
-def decTfhd' (bs : Bytes) : Option (Tfhd × Bytes) := do
-  let (version, bs) ← decU8 bs
-  let (flags, bs) ← decU24 bs
-  let (tid, bs) ← decU32 bs
-  let (bdo, bs) ← decOpt (hasBit flags 0) decU64 bs
-  let (sdi, bs) ← decOpt (hasBit flags 1) decU32 bs
-  let (dsd, bs) ← decOpt (hasBit flags 3) decU32 bs
-  let (dss, bs) ← decOpt (hasBit flags 4) decU32 bs
-  let (dsf, bs) ← decOpt (hasBit flags 5) decU32 bs
+def decTfhd' (bs : Bytes) : Option (Tfhd × Bytes) :=
+  andThen (decU8 bs) fun version bs =>
+  andThen (decU24 bs) fun flags bs =>
+  andThen (decU32 bs) fun tid bs =>
+  andThen (decOpt (hasBit flags 0) decU64 bs) fun bdo bs =>
+  andThen (decOpt (hasBit flags 1) decU32 bs) fun sdi bs =>
+  andThen (decOpt (hasBit flags 3) decU32 bs) fun dsd bs =>
+  andThen (decOpt (hasBit flags 4) decU32 bs) fun dss bs =>
+  andThen (decOpt (hasBit flags 5) decU32 bs) fun dsf bs =>
   some ({ version := version, flags := flags, track_id := tid, base_data_offset := bdo,
           sample_description_index := sdi, default_sample_duration := dsd,
           default_sample_size := dss, default_sample_flags := dsf }, bs)
@@ -100,11 +100,11 @@ def encTrunSample (flags version : Nat) (s : TrunSample) : Bytes :=
    encOptI (hasBit flags 11) (encCto (version != 0)) s.composition_time_offset))
 
 /-- the stored part of `TrackSample.parse` – mp4.py:2667-2694 -/
-def decTrunSample (flags version : Nat) (bs : Bytes) : Option (TrunSample × Bytes) := do
-  let (d, bs) ← decOpt (hasBit flags 8) decU32 bs
-  let (sz, bs) ← decOpt (hasBit flags 9) decU32 bs
-  let (fl, bs) ← decOpt (hasBit flags 10) decU32 bs
-  let (cto, bs) ← decOptI (hasBit flags 11) (decCto (version != 0)) bs
+def decTrunSample (flags version : Nat) (bs : Bytes) : Option (TrunSample × Bytes) :=
+  andThen (decOpt (hasBit flags 8) decU32 bs) fun d bs =>
+  andThen (decOpt (hasBit flags 9) decU32 bs) fun sz bs =>
+  andThen (decOpt (hasBit flags 10) decU32 bs) fun fl bs =>
+  andThen (decOptI (hasBit flags 11) (decCto (version != 0)) bs) fun cto bs =>
   some ({ duration := d, size := sz, flags := fl, composition_time_offset := cto }, bs)
 
 structure Trun where
@@ -134,13 +134,13 @@ def encTrun (x : Trun) : Bytes :=
     (encOpt (hasBit x.flags 2) encU32 x.first_sample_flags ++
      encMany (encTrunSample x.flags x.version) x.samples))))
 
-def decTrun' (bs : Bytes) : Option (Trun × Bytes) := do
-  let (version, bs) ← decU8 bs
-  let (flags, bs) ← decU24 bs
-  let (count, bs) ← decU32 bs
-  let (off, bs) ← decOptI (hasBit flags 0) decI32 bs
-  let (fsf, bs) ← decOpt (hasBit flags 2) decU32 bs
-  let (samples, bs) ← decMany (decTrunSample flags version) count bs
+def decTrun' (bs : Bytes) : Option (Trun × Bytes) :=
+  andThen (decU8 bs) fun version bs =>
+  andThen (decU24 bs) fun flags bs =>
+  andThen (decU32 bs) fun count bs =>
+  andThen (decOptI (hasBit flags 0) decI32 bs) fun off bs =>
+  andThen (decOpt (hasBit flags 2) decU32 bs) fun fsf bs =>
+  andThen (decMany (decTrunSample flags version) count bs) fun samples bs =>
   some ({ version := version, flags := flags, sample_count := count, data_offset := off,
           first_sample_flags := fsf, samples := samples }, bs)
 
@@ -189,13 +189,13 @@ def encSaiz (x : Saiz) : Bytes :=
     (encU8 x.default_sample_info_size ++
      encSaizTable x.default_sample_info_size x.sample_count x.sample_info_sizes))))
 
-def decSaiz' (bs : Bytes) : Option (Saiz × Bytes) := do
-  let (version, bs) ← decU8 bs
-  let (flags, bs) ← decU24 bs
-  let (ait, bs) ← decOpt (hasBit flags 0) decU32 bs
-  let (aitp, bs) ← decOpt (hasBit flags 0) decU32 bs
-  let (dflt, bs) ← decU8 bs
-  let (tbl, bs) ← decSaizTable dflt bs
+def decSaiz' (bs : Bytes) : Option (Saiz × Bytes) :=
+  andThen (decU8 bs) fun version bs =>
+  andThen (decU24 bs) fun flags bs =>
+  andThen (decOpt (hasBit flags 0) decU32 bs) fun ait bs =>
+  andThen (decOpt (hasBit flags 0) decU32 bs) fun aitp bs =>
+  andThen (decU8 bs) fun dflt bs =>
+  andThen (decSaizTable dflt bs) fun tbl bs =>
   some ({ version := version, flags := flags, aux_info_type := ait,
           aux_info_type_parameter := aitp, default_sample_info_size := dflt,
           sample_count := tbl.1, sample_info_sizes := tbl.2 }, bs)
@@ -225,13 +225,13 @@ def encSaio (x : Saio) : Bytes :=
     (encOpt (hasBit x.flags 0) encU32 x.aux_info_type_parameter ++
     (encU32 x.offsets.length ++ encMany (encW (x.version != 0)) x.offsets))))
 
-def decSaio' (bs : Bytes) : Option (Saio × Bytes) := do
-  let (version, bs) ← decU8 bs
-  let (flags, bs) ← decU24 bs
-  let (ait, bs) ← decOpt (hasBit flags 0) decU32 bs
-  let (aitp, bs) ← decOpt (hasBit flags 0) decU32 bs
-  let (count, bs) ← decU32 bs
-  let (offsets, bs) ← decMany (decW (version != 0)) count bs
+def decSaio' (bs : Bytes) : Option (Saio × Bytes) :=
+  andThen (decU8 bs) fun version bs =>
+  andThen (decU24 bs) fun flags bs =>
+  andThen (decOpt (hasBit flags 0) decU32 bs) fun ait bs =>
+  andThen (decOpt (hasBit flags 0) decU32 bs) fun aitp bs =>
+  andThen (decU32 bs) fun count bs =>
+  andThen (decMany (decW (version != 0)) count bs) fun offsets bs =>
   some ({ version := version, flags := flags, aux_info_type := ait,
           aux_info_type_parameter := aitp, offsets := offsets }, bs)
 
